@@ -69,10 +69,36 @@ macro_rules! arch_spec {
                 ($({ let v = <$C as Comp>::make(p[i]); i += 1; v },)*).into()
             }
             fn obs_comps(c: &<$A as Archetype>::Components) -> Vec<Obs> {
-                vec![$(c.get::<$C>().obs()),*]
+                // trait access and named-field access must agree
+                let a = vec![$(c.get::<$C>().obs()),*];
+                let b = vec![$(c.$f.obs()),*];
+                if a != b {
+                    crate::rt::violate("C02", "named-field-vs-trait-access", format!("{}Components: get::<C>() gives {:?}, named fields give {:?}", stringify!($A), a, b));
+                }
+                a
             }
             fn obs_view(v: &<$A as Archetype>::View<'_>) -> Row {
-                (abits((*v.entity).into_any()), vec![$(v.component::<$C>().obs()),*])
+                let a = vec![$(v.component::<$C>().obs()),*];
+                let b = vec![$(v.$f.obs()),*];
+                if a != b {
+                    crate::rt::violate("C02", "named-field-vs-trait-access", format!("{}View: component::<C>() gives {:?}, named fields give {:?}", stringify!($A), a, b));
+                }
+                (abits((*v.entity).into_any()), a)
+            }
+            fn view_index(v: &<$A as Archetype>::View<'_>) -> usize {
+                v.index()
+            }
+            fn borrow_index(b: &<$A as Archetype>::Borrow<'_>) -> usize {
+                b.index()
+            }
+            fn comps_roundtrip(c: <$A as Archetype>::Components) -> Vec<Obs> {
+                // Components -> tuple -> Components (From/Into in both directions), get_mut
+                let t: <<$A as Archetype>::Components as Components>::Tuple = c.into_tuple();
+                let mut c2: <$A as Archetype>::Components = t.into();
+                let o = vec![$(c2.get_mut::<$C>().obs()),*];
+                let t2: ($($C,)*) = c2.into();
+                drop(t2);
+                o
             }
             fn set_view(v: &mut <$A as Archetype>::View<'_>, col: usize, p: u64) {
                 let mut i = 0usize;
@@ -423,9 +449,16 @@ macro_rules! world_spec {
                 SITES
             }
             fn with_caps(caps: &[usize]) -> Self {
+                // all-zero capacities: the other two constructors must be equivalent
+                if caps.iter().all(|c| *c == 0) {
+                    return <$W as World>::new();
+                }
                 let mut c = <$W as World>::Capacities::default();
                 $( c.$field = caps[$idx]; )*
                 <$W as World>::with_capacity(c)
+            }
+            fn fresh_default() -> Self {
+                <$W as Default>::default()
             }
             fn find_full(&mut self, ai: usize, borrow: bool, key: Key, write: Option<(usize, u64)>, byref: bool) -> Option<(Row, Option<EntityDirectAny>)> {
                 match ai {
